@@ -25,11 +25,13 @@ def main() -> None:
         b1, b2 = solo_bytes(w1), solo_bytes(w2)
         net.case((w1, w2))
         # (1) statement-by-statement interleaving of two live streams (fresh options each, and one shared options object)
+        # options shared by both streams must fit both workloads (a table too small for a workload is C18's subject)
+        ss = tuple(max(a, b) for a, b in zip(w1[2], w2[2]))
         for shared in (False, True):
             def interleaved():
                 outs = []
                 streams = []
-                shared_opts = make_options(w1[0], w1[2], frame_size=w1[3]) if shared else None   # logical type left to be inferred
+                shared_opts = make_options(w1[0], ss, frame_size=w1[3]) if shared else None   # logical type left to be inferred
                 for w in (w1, w2):
                     phys, stmts, sizes, fs = w
                     if shared and phys != w1[0]:
@@ -50,7 +52,7 @@ def main() -> None:
             if outs is None and kind == "ok":
                 continue
             if shared:
-                ref = [solo_bytes(w1, make_options(w1[0], w1[2], frame_size=w1[3])), solo_bytes((w2[0], w2[1], w1[2], w1[3]), make_options(w1[0], w1[2], frame_size=w1[3]))]
+                ref = [solo_bytes(w1, make_options(w1[0], ss, frame_size=w1[3])), solo_bytes((w2[0], w2[1], ss, w1[3]), make_options(w1[0], ss, frame_size=w1[3]))]
             else:
                 ref = [b1, b2]
             if kind == "raise" or outs != ref:
